@@ -77,7 +77,8 @@ def cmdDocAt (j : Json) : Json :=
        let ver := jStr j "ver"
        let doc := save ver (strList (jArr j "topo")) s
        if op == "save" then Json.mkObj [("doc", pvOut doc)]
-       else Json.mkObj ([("doc", pvOut doc)] ++ resOut (fromFile ver doc) (topo2Of j) ver))
+       else Json.mkObj ([("doc", pvOut doc), ("saveable", saveableb (strList (jArr j "topo")) s)] ++
+              resOut (fromFile ver doc) (topo2Of j) ver))
   | "doc", "load" =>
     let lib := jStr j "lib"
     let doc : PV α := pvOf ((j.getObjVal? "doc").toOption.getD .null)
